@@ -456,4 +456,35 @@ theorem maxResid_zero {ps : List P} (h : ∀ p ∈ ps, Proper p) : maxResid ps =
       simp only [List.foldl_cons, ha, lt_irrefl, if_false]
       exact ih (fun x hx => h x (List.mem_cons_of_mem _ hx))
 
+/-! ### ascending time stamps -/
+
+theorem strictAsc_iff (l : List Rat) : strictAsc l = true ↔ l.Pairwise (· < ·) := by
+  induction l with
+  | nil => simp [strictAsc]
+  | cons a r ih =>
+      cases r with
+      | nil => simp [strictAsc]
+      | cons b r' =>
+          simp only [strictAsc, Bool.and_eq_true, decide_eq_true_eq, ih]
+          constructor
+          · rintro ⟨hab, hp⟩
+            refine List.pairwise_cons.mpr ⟨?_, hp⟩
+            intro x hx
+            rcases List.mem_cons.mp hx with rfl | hx
+            · exact hab
+            · exact lt_trans hab ((List.pairwise_cons.mp hp).1 x hx)
+          · intro hp
+            have := List.pairwise_cons.mp hp
+            exact ⟨this.1 b (by simp), this.2⟩
+
+/-- selecting strictly increasing indices from a strictly increasing list keeps it strictly increasing -/
+theorem reduce_pairwise (l : List Rat) (ids : List Nat) (hl : l.Pairwise (· < ·)) (hi : ids.Pairwise (· < ·)) :
+    (reduceIds l ids).Pairwise (· < ·) := by
+  unfold reduceIds
+  refine List.Pairwise.filterMap (fun i => l[i]?) ?_ hi
+  intro i j hij b hb b' hb'
+  obtain ⟨hi', rfl⟩ := List.getElem?_eq_some_iff.mp hb
+  obtain ⟨hj', rfl⟩ := List.getElem?_eq_some_iff.mp hb'
+  exact List.pairwise_iff_getElem.mp hl i j hi' hj' hij
+
 end Evo.Traj
